@@ -32,7 +32,10 @@ RULE = ("grammar-based random statements of the ten query classes (SELECT/INSERT
         "sub-queries in select list / WHERE / IN / EXISTS / function arguments, correlated references to outer tables in "
         "WHERE and in other clauses, the same table joined again, sub-query objects already named by another statement) "
         "with a sentinel column name per bound reference; expression trees under random keyword contexts; and SQLLiteQuery "
-        "statements over a fixed schema that are executed against an explicit fully qualified reference. Non-trivial = at "
+        "statements over a fixed schema that are executed against an explicit fully qualified reference; histories of from_/join "
+        "calls in any order (sub-queries, set operations, re-used objects); systematic small products (auto-naming x source kind x "
+        "position, several where() calls x position of the correlating one, name2 x statement kind); and EVERY Term subclass of "
+        "pypika (enumerated from the sources, fail closed) x clause x source shape with sentinel columns (oracle only). Non-trivial = at "
         "least one bound reference in a scope with >= 2 row sources or an aliased source; distinct by structural hash.")
 TRUSTED = [
     "harness/queries_family.py + this file build the same statement on pypika and as a Gallina value",
